@@ -655,11 +655,19 @@ func (r *Run) idleAction(c *consumer, rng *rand.Rand) {
 		case 1:
 			c.cn.cmd("CLS", "", "")
 			c.closing = true
+			if rng.Intn(2) == 0 {
+				// ... and asks for more all the same: CLS stands, nothing more may come
+				c.cn.cmd("RDY", "", strconv.Itoa(1+rng.Intn(4)))
+			}
 		default:
 			n := int64(1 + rng.Intn(4))
 			c.cn.cmd("RDY", "", strconv.FormatInt(n, 10))
 			c.rdy = n
 		}
+	}
+	if c.person == 4 && c.closing && rng.Intn(8) == 0 {
+		// a consumer that has said CLS asks for more all the same: nothing more may come
+		c.cn.cmd("RDY", "", strconv.Itoa(1+rng.Intn(4)))
 	}
 	// answers from the wrong connection: try to FIN a message another consumer holds
 	if r.sc.Mode == "contend" && rng.Intn(10) == 0 {
